@@ -118,7 +118,7 @@ func e2X(r Rand, onCurve bool) fp2 {
 }
 
 func enc2(x fp2) []byte {
-	return append(fp48(x.b), fp48(x.a)...)
+	return append(fp48(x.a), fp48(x.b)...)
 }
 
 // G2NonSubgroup: compressed encoding of a random point of E2(Fp2), outside G2 except with
@@ -145,7 +145,7 @@ func G2XTooLarge(r Rand) []byte {
 	if r.Bytes(1)[0]&1 == 1 {
 		x = fp2{new(big.Int).Add(P, big.NewInt(3)), randFp(r)}
 	}
-	b := append(fp48(x.b), fp48(x.a)...)
+	b := append(fp48(x.a), fp48(x.b)...)
 	b[0] |= 0x80
 	return b
 }
